@@ -1,4 +1,6 @@
 import Ekit.Props.C09
+import Ekit.Props.C09bRev
+import Ekit.Props.C09aRev
 #print axioms c09a_lbq_fetch_before_unlock
 #print axioms c09a_lbq_generations
 #print axioms c09a_lbq_no_lost_wakeup_enq
@@ -49,4 +51,28 @@ open Ekit.DelayQ
 #print axioms c09_capacity_conserved
 #print axioms c09_delivers_at_quiescence
 #print axioms c09_delay_promptness_partial
-
+-- review additions (Ekit/Props/C09bRev.lean): broadcast wakes all, solo completion (variant), drain
+#print axioms c09_broadcast_wakes_all
+#print axioms deqTail_runs
+#print axioms c09_woken_dequeue_completes_solo
+#print axioms c09_ticked_dequeue_completes_solo
+#print axioms c09_timer_dequeue_completes_by_time_alone
+#print axioms c09_woken_enqueue_completes_solo
+#print axioms c09_futile_wakeup_reparks_fresh
+#print axioms c09_drains_at_quiescence
+#print axioms c09_accepts_and_delivers_capacity
+-- review additions (Ekit/Props/C09aRev.lean)
+#print axioms c09a_lbq_parked_generation_le
+#print axioms c09a_lbq_superseded_waiter_wakes
+#print axioms c09a_lbq_closed_stays_closed
+#print axioms c09a_lbq_wake_stable_enq
+#print axioms c09a_lbq_wake_stable_deq
+#print axioms c09a_lbq_close_duty_stable
+#print axioms c09a_lbq_closing_chain
+#print axioms c09a_abq_fill
+#print axioms c09a_abq_drain
+#print axioms c09a_abq_full_blocks
+#print axioms c09a_abq_empty_blocks
+#print axioms c09a_abq_exactly_capacity
+#print axioms c09a_lbq_fill
+#print axioms c09a_lbq_drain
